@@ -112,6 +112,10 @@ func (c *netCase) nodeAct(pos int, over actOverride) neatmath.NodeActivationType
 
 // direct builds the network through the network API (nodes, ConnectFrom, NewNetwork).
 func (c *netCase) direct(over actOverride, wscale float64) *network.Network {
+	return c.directOrdered(over, wscale, false)
+}
+
+func (c *netCase) directOrdered(over actOverride, wscale float64, reverseNeurons bool) *network.Network {
 	nodes := map[int]*network.NNode{}
 	var all, ins, outs []*network.NNode
 	for i, n := range c.Nodes {
@@ -135,7 +139,25 @@ func (c *netCase) direct(over actOverride, wscale float64) *network.Network {
 		lk.IsTimeDelayed = l.Td
 		lk.IsRecurrent = pos[l.Src] >= pos[l.Dst]
 	}
+	if reverseNeurons {
+		var sensors, neurons []*network.NNode
+		for _, x := range all {
+			if x.IsSensor() {
+				sensors = append(sensors, x)
+			} else {
+				neurons = append([]*network.NNode{x}, neurons...)
+			}
+		}
+		all = append(sensors, neurons...)
+	}
 	return network.NewNetwork(ins, outs, all, 1)
+}
+
+// directShuffled builds the same network with the NEURONS of its all-nodes list in the opposite order (sensors stay
+// in front, in order: the fast solver numbers its inputs by that list): which neuron is output k is said by
+// Network.Outputs, not by the position of the neuron in the all-nodes list.
+func (c *netCase) directShuffled(over actOverride, wscale float64) *network.Network {
+	return c.directOrdered(over, wscale, true)
 }
 
 // viaGenome expresses the same network from a genome (nodes in allNodes order, one enabled gene per link in the
